@@ -21,7 +21,9 @@ def variants(wpv, cplx, ascii_, perline):
     if ascii_:
         mtype = C.MTYPE[(wpv, cplx)]
         for letter in ("E", "D"):
-            for width, digits in ((16, 9), (23, 16), (24, 16), (27, 17), (21, 14)):
+            # announced values-per-line counts that begin with the digit 1 (one very wide field; ten narrow ones) next to the usual 2-3
+            wd = {1: ((45, 30), (41, 20), (80, 17)), 10: ((8, 1),)}.get(perline, ((16, 9), (23, 16), (24, 16), (27, 17), (21, 14)))
+            for width, digits in wd:
                 for prefix in ("1P,", ""):
                     for i16 in (False, True):
                         out.append(dict(kind="ascii", mtype=mtype, letter=letter, width=width, digits=digits, prefix=prefix,
@@ -145,7 +147,8 @@ def body(run: Run, replay):
              ("MC_Op4_h1.cfg", 3, 1, 2, 1, False, 3), ("MC_Op4_h2.cfg", 3, 1, 1, 1, True, 3), ("MC_Op4_h3.cfg", 3, 1, 1, 2, False, 3),
              # exactly 65536 / 65537 rows: bigmat strings under a positive row count (Nastran's automatic switch)
              ("MC_Op4_h4.cfg", 3, 1, 2, 1, False, 3), ("MC_Op4_h5.cfg", 3, 1, 1, 1, True, 3), ("MC_Op4_h6.cfg", 3, 1, 2, 1, True, 3),
-             ("MC_Op4_h7.cfg", 2, 1, 1, 2, False, 3)]
+             ("MC_Op4_h7.cfg", 2, 1, 1, 2, False, 3),
+             ("MC_Op4_p1.cfg", 3, 2, 2, 1, True, 1), ("MC_Op4_p10.cfg", 3, 2, 2, 1, True, 10)]
     if not quick:
         plans += [("MC_Op4_t1.cfg", 4, 2, 2, 1, False, 3), ("MC_Op4_t2.cfg", 3, 2, 2, 2, True, 3)]
     plans_extra = [("MC_Op4_q1.cfg", 1, 1), ("MC_Op4_q1.cfg", 1, 2), ("MC_Op4_q1.cfg", 2, 2), ("MC_Op4_q2.cfg", 2, 1), ("MC_Op4_q2.cfg", 1, 1), ("MC_Op4_q2.cfg", 2, 2)]
